@@ -240,9 +240,10 @@ def diff_loc(dfs, new, window=None):
     old = []
     if len(dfs) > 0:
         mx = max(df.index.max() for df in dfs)
-        mn = mx - pd.Timedelta(window) + pd.Timedelta('1ns')
-        while pd.Timestamp(dfs[0].index.min()) < mn:
-            o = dfs[0].loc[:mn]
+        # the window is (mx - window, mx]: rows at or before `cutoff` have left it
+        cutoff = mx - pd.Timedelta(window)
+        while pd.Timestamp(dfs[0].index.min()) <= cutoff:
+            o = dfs[0].loc[:cutoff]  # label slices include their end point
             if len(old) > 0:
                 old.append(o)
             else:
